@@ -108,7 +108,7 @@ def loop_bindings(model, f, node, parents):
 
 
 
-def fields_read(expr, f, bind=None):
+def fields_read(expr, f, bind=None, depth=0):
     """the parser keys (``parser['key']``) an expression of function ``f`` reads: directly, through locals assigned from
     them (also as one component of a tuple valued expression), through collections filled in a loop bounded by them, and
     through the values helper methods of the class return"""
@@ -142,13 +142,29 @@ def fields_read(expr, f, bind=None):
                     todo.extend(a for a in whole.args)
                     continue
             e = whole
+        subscripted = {id(x.value) for x in ast.walk(e) if isinstance(x, ast.Subscript) and isinstance(x.value, ast.Name)}
         for x in ast.walk(e):
+            if id(x) in subscripted:
+                continue        # the parser object of ``parser['key']``: the key says what is read, not where the parser came from
             if isinstance(x, ast.Subscript) and isinstance(x.slice, ast.Constant) and isinstance(x.slice.value, str):
                 keys.add(x.slice.value)
             elif isinstance(x, ast.Subscript) and isinstance(x.slice, ast.Name) and bind and x.slice.id in bind:
                 keys.add(bind[x.slice.id])          # parser[field_name] inside a loop over a table of field names
             elif isinstance(x, ast.Name) and x.id not in seen:
                 seen.add(x.id)
+                params = [a.arg for a in f.node.args.args]
+                if x.id in params and x.id not in ('self', 'cls') and f.cls is not None and depth < 3:
+                    # a parameter of a helper: what the callers of the class hand in at that position
+                    pos = params.index(x.id) - (1 if params and params[0] in ('self', 'cls') else 0)
+                    for g in f.cls.methods.values():
+                        if g is f:
+                            continue
+                        for c in ast.walk(g.node):
+                            if isinstance(c, ast.Call) and isinstance(c.func, ast.Attribute) and c.func.attr == f.name and \
+                                    isinstance(c.func.value, ast.Name) and c.func.value.id in ('cls', 'self'):
+                                arg = c.args[pos] if 0 <= pos < len(c.args) else next((k.value for k in c.keywords if k.arg == x.id), None)
+                                if arg is not None:
+                                    keys |= fields_read(arg, g, None, depth + 1)
                 for d in ast.walk(f.node):
                     if isinstance(d, ast.Assign) and len(d.targets) == 1 and isinstance(d.targets[0], ast.Name) and d.targets[0].id == x.id:
                         todo.append(d.value)
